@@ -518,6 +518,13 @@ def check_rule(ctx, obj, api, rterm, spec, doc, tag):
             ctx.mark_nontrivial((repr(spec), repr(doc)))
 
 
+def schema_fp(s, doc):
+    ok, vd = call(s.validate, M.deep_copy(doc))
+    if not ok:
+        return ("raise", vd.type)
+    return (vd.is_valid, vd.num_failures, vd.num_rules_tested, canon(vd.cast_data))
+
+
 def yaml_text(spec):
     from ruamel.yaml import YAML
     y = YAML(typ="safe")
@@ -591,6 +598,16 @@ def run_yaml(case, ctx):
         if m is not M.SKIP and m["num_tested"]:
             ctx.mark_nontrivial((text, repr(doc)))
             ctx.sample({"yaml": text, "doc": doc}, cap=2)
+    # history: the schema returned for this text is changed by its owner; parsing the same text
+    # again must still give the schema the text describes
+    if not case.get("file"):
+        obj.rules.clear()
+        ok, obj2 = call(valida.Schema.from_yaml, text)
+        if not ok:
+            ctx.violate(f"C10/yaml/reparse-raise:{obj2.type}", f"second from_yaml of the same text raised {obj2!r}")
+        elif len(obj2.rules) != len(rules) or (r2[0] and schema_fp(obj2, doc) != schema_fp(api, doc)):
+            ctx.violate("C10/yaml/reparse-differs", f"parsing the same YAML text again (after the first result was modified by its owner) "
+                        f"gives a schema with {len(obj2.rules)} rules that validates differently; yaml:\n{text}")
     ctx.count("yaml")
     if case.get("w4"):
         ctx.count("W4-corpus-cases")
